@@ -813,6 +813,7 @@ func main() {
 				pp = fs.thorParams
 			}
 			if pp != "" {
+				pp += fmt.Sprintf(",rot=%d", seed%1000003)
 				ex = append(ex, "-params", pp)
 			}
 			jobs = append(jobs, job{from: f, to: t, extra: ex, forced: fs.name, params: pp})
